@@ -28,7 +28,7 @@ def lemma_finalise(ctx):
             if e.name in order and (e.args[0] != "infd" and e.name != "sync" or e.args[-1] != "outfd"):
                 ctx.fail("C10: %s is applied from the source descriptor to the destination descriptor" % e.name, str(e.args))
         # each step happens iff requested (as long as no earlier mandatory step failed)
-        failed = [e for e in p.trace if e.ret == "err" and e.name != "copy_owner"]
+        failed = [e for e in p.trace if is_errev(e) and e.name != "copy_owner"]
         for i, step in enumerate(order):
             present = step in names
             if present:
@@ -77,7 +77,7 @@ def lemma_drop(ctx):
         if p.status != "return":
             ctx.fail("drop: path ends in return", "%s %s" % (p.status, p.msg))
             continue
-        failed = [e for e in p.trace if e.ret == "err" and e.name in ("copy_permissions", "copy_timestamps", "sync")]
+        failed = [e for e in p.trace if is_errev(e) and e.name in ("copy_permissions", "copy_timestamps", "sync")]
         reported = [e for e in p.trace if e.name in ("send", "panic")]
         if failed and not reported:
             swallowed += 1
